@@ -862,7 +862,10 @@ impl<R: Read> RdbReader<R> {
         let ttl = if expiry_ms > now_ms {
             Some(Duration::from_millis(expiry_ms - now_ms))
         } else {
-            None // Already expired
+            // Already expired: the payload still has to be read, so load the key with a
+            // deadline of "now" (it is gone for every reader and swept within a second)
+            // instead of loading it without any deadline, which made it immortal.
+            Some(Duration::ZERO)
         };
         
         self.read_key_value_with_type(storage, db, value_type, ttl)
